@@ -65,6 +65,7 @@ type vf17Stor struct {
 	maxDelay time.Duration // each call sleeps rng[0,maxDelay) first (makes workers busy)
 	gate     chan struct{} // non-nil: calls park here until it is closed
 	gateFail bool          // parked calls fail when released
+	gateOnly *oid.Address  // non-nil: only calls that carry this address park at the gate
 
 	started, finished, active int
 	okSingle, okBatch         int
@@ -114,7 +115,7 @@ func (s *vf17Stor) anyFailed() string {
 	return "no-flush-failed"
 }
 
-func (s *vf17Stor) enter() (fail bool, err error) {
+func (s *vf17Stor) enter(carries func(oid.Address) bool) (fail bool, err error) {
 	s.mu.Lock()
 	s.started++
 	s.active++
@@ -125,6 +126,9 @@ func (s *vf17Stor) enter() (fail bool, err error) {
 	fail = s.failAll || (s.failProb > 0 && s.rng.Float64() < s.failProb)
 	err = s.failErr
 	g := s.gate
+	if g != nil && s.gateOnly != nil && !carries(*s.gateOnly) {
+		g = nil // the stall is selective and this call does not carry the selected address
+	}
 	if g != nil {
 		s.parked++
 	}
@@ -165,7 +169,7 @@ func (s *vf17Stor) leave(single bool, err error) {
 }
 
 func (s *vf17Stor) Put(addr oid.Address, data []byte) (err error) {
-	fail, ferr := s.enter()
+	fail, ferr := s.enter(func(a oid.Address) bool { return a == addr })
 	defer func() { s.note([]oid.Address{addr}, err); s.leave(true, err) }()
 	if fail {
 		return ferr
@@ -174,7 +178,7 @@ func (s *vf17Stor) Put(addr oid.Address, data []byte) (err error) {
 }
 
 func (s *vf17Stor) PutBatch(m map[oid.Address][]byte) (err error) {
-	fail, ferr := s.enter()
+	fail, ferr := s.enter(func(a oid.Address) bool { _, ok := m[a]; return ok })
 	defer func() {
 		l := make([]oid.Address, 0, len(m))
 		for a := range m {
@@ -851,6 +855,90 @@ func vf17CaseLeakTry(r *verifkit.Run, idx, attempt int, last bool) (retry bool) 
 	return false
 }
 
+// D: constructed.  Only the flush of the LARGEST cached object (it sorts last in the
+// scheduler's size order) stalls in the main storage; while it is in flight a few smaller
+// objects arrive and the scheduler runs further rounds.  The storage is healthy for every other
+// call and the stalled call succeeds in the end: everything must drain.  All steps are
+// awaited by state (calls parked in the storage wrapper, in-flight marks / table entries of
+// the cache), never by elapsed time; the verdict is the DRAIN oracle of finish().
+func vf17CaseLargestInFlight(r *verifkit.Run, idx int) {
+	rng := r.Rand("largest-in-flight", idx)
+	thr := uint64(2048)
+	// at least two workers: one is held by the stalled flush, the others keep the scheduler's hand-offs moving
+	p := vf17Params{Workers: 2 + idx%3, Thr: thr, BCount: 8, BSize: 1 << 20, MaxSize: 1 << 20, Kind: "constructed-largest-in-flight-while-smaller-arrive"}
+	k, err := vf17NewInst(r, 2000+idx, p, rng)
+	if err != nil {
+		r.Inconclusive("setup: " + err.Error())
+		return
+	}
+	nSmall := 1 + rng.IntN(4)
+	// the largest object is above the batch threshold (flushed alone) or below it (a batch of one)
+	bigSize := int(thr) + 1 + rng.IntN(int(thr))
+	if idx%2 == 1 {
+		bigSize = 1200 + rng.IntN(int(thr)-1200)
+	}
+	k.desc = map[string]any{"scenario": p.Kind, "case": idx, "params": p, "small_arriving": nSmall, "largest_size": bigSize}
+	cnr, owner := verifkit.RandCID(rng), verifkit.RandUser(rng)
+	big := vf17MakeObj(rng, cnr, owner, bigSize)
+	gate := make(chan struct{})
+	k.st.set(func() { k.st.gate = gate; k.st.gateOnly = &big.addr })
+	wd := 60 * vf17Tick // watchdogs only turn the case inconclusive
+	k.put(big)
+	if !vf17Await(func() bool { return k.st.stat().parked == 1 }, wd) {
+		close(gate)
+		r.Inconclusive(fmt.Sprintf("case %d: the flush of the largest object did not reach the stalled storage", k.idx))
+		k.finishQuiet()
+		return
+	}
+	k.logf("put largest %s size=%d; its flush is stalled inside the main storage (all other calls pass)", vf17Short(big.addr), len(big.data))
+	var smalls []vf17Obj
+	for i := 0; i < nSmall; i++ {
+		o := vf17MakeObj(rng, cnr, owner, 300+rng.IntN(800)) // < largest, <= threshold, together far below batch count/size
+		smalls = append(smalls, o)
+		err := k.put(o)
+		k.logf("put %s size=%d -> %v", vf17Short(o.addr), len(o.data), err)
+	}
+	// a scheduler round has dealt with a small object once it is marked in flight or has left the
+	// size table; wait until that holds for all of them, then for one more full round (the next
+	// small object put now is dealt with the same way) - the largest one is in flight throughout
+	seen := func(objs []vf17Obj) func() bool {
+		return func() bool {
+			tbl := k.c.objCounters.Map()
+			for _, o := range objs {
+				_, marked := k.c.flushObjs.Load(o.addr)
+				if _, in := tbl[o.addr]; in && !marked {
+					return false
+				}
+			}
+			return true
+		}
+	}
+	ok := vf17Await(seen(smalls), wd)
+	if ok {
+		late := vf17MakeObj(rng, cnr, owner, 250+rng.IntN(50))
+		smalls = append(smalls, late)
+		err := k.put(late)
+		k.logf("a scheduler round passed with the largest in flight; put %s size=%d -> %v", vf17Short(late.addr), len(late.data), err)
+		ok = vf17Await(seen(smalls), wd)
+	}
+	if !ok || k.st.stat().parked != 1 {
+		close(gate)
+		r.Inconclusive(fmt.Sprintf("case %d: scheduler rounds with the largest object in flight were not observed", k.idx))
+		k.finishQuiet()
+		return
+	}
+	r.Count("constructed_rounds_with_largest_object_in_flight", 1)
+	if s, ok := k.stable(3, 30*time.Millisecond, 30*time.Second); ok {
+		k.checkSize(s, "flush of the largest object stalled in main storage")
+	}
+	k.st.set(func() { k.st.gate = nil; k.st.gateOnly = nil })
+	close(gate)
+	k.logf("two scheduler rounds passed with the largest in flight; stalled flush released (succeeds); no more writes")
+	r.Distinct(fmt.Sprintf("largest|w=%d|small=%d|big=%d", p.Workers, nSmall, bigSize))
+	k.finish(rng, cnr, owner, p.Kind)
+	r.Eval(1)
+}
+
 func (k *vf17Inst) finishQuiet() {
 	k.r.Guard(k.desc, func() { _ = k.c.Close() })
 	k.cleanup()
@@ -1153,7 +1241,7 @@ func vf17CaseRace(r *verifkit.Run, h *verifkit.Hooks, idx int) {
 func TestVerif_C17(t *testing.T) {
 	r := verifkit.Start(t, "C17", "exploration")
 	defer r.Finish()
-	r.SetRule("cases = real write-caches (real tick/back-off) over a fault-injecting main storage: (A) constructed: all workers stalled, a big object closes a pending batch, stalled flush fails; (B) sequential puts with repeats under a stalled storage (exact reference content, admission judged); (C) concurrent clients with repeats/deletes under random transient failures and slow storage. Distinct = distinct (scenario, parameters, size sequence); non-trivial = at least one size check on a non-empty cache and a drain verdict")
+	r.SetRule("cases = real write-caches (real tick/back-off) over a fault-injecting main storage: (A) constructed: all workers stalled, a big object closes a pending batch, stalled flush fails; (D) constructed: only the flush of the largest cached object stalls while smaller objects arrive and scheduler rounds pass, then it succeeds; (B) sequential puts with repeats under a stalled storage (exact reference content, admission judged); (C) concurrent clients with repeats/deletes under random transient failures and slow storage. Distinct = distinct (scenario, parameters, size sequence); non-trivial = at least one size check on a non-empty cache and a drain verdict")
 	r.Assume("quiescent point = all client calls returned, no main-storage call in progress or all of them parked, identical white-box state in >=3 consecutive samples")
 	r.Assume("bounded progress: drain bound = errorDelay(10s) + 6 ticks; beyond it only a stable state with an identifiable stuck object is a violation, anything else inconclusive")
 	h := verifkit.InstallHooks()
@@ -1163,10 +1251,13 @@ func TestVerif_C17(t *testing.T) {
 	for i := 0; i < r.Pick(2, 8); i++ {
 		vf17CaseRace(r, h, i)
 	}
-	nA, nB, nC := r.Pick(4, 16), r.Pick(16, 120), r.Pick(28, 360)
+	nA, nB, nC, nD := r.Pick(4, 16), r.Pick(16, 120), r.Pick(28, 360), r.Pick(6, 24)
 	par := r.Pick(16, 24)
 	type job func()
 	var jobs []job
+	for i := 0; i < nD; i++ {
+		jobs = append(jobs, func() { vf17CaseLargestInFlight(r, i) })
+	}
 	for i := 0; i < nA; i++ {
 		jobs = append(jobs, func() { vf17CaseLeak(r, i) })
 	}
